@@ -9,7 +9,7 @@ PROP = {
          'failing and ≥2 reached sinks; distinct = distinct canonical op JSON',
  'assumptions': ['opaque stdlib leaves as in C01', 'multierr.Append keeps every error; fmt prints them all on one line',
                  'the implicit Sync that ioCore performs above Error level deliberately drops its error (upstream issue 370): only containment is checked for sync errors'],
- 'technique': 'Lean 4: well-formedness of Field.AddTo under every failure branch (structural), delivery functions over core trees; tie: correspondence with fault injection at 25–50 % of positions and exhaustive failing-sink subsets',
+ 'technique': 'Lean 4: well-formedness of Field.AddTo under every failure branch (structural), delivery functions over core trees; tie: correspondence with fault injection at 25–50 % of positions and exhaustive failing-sink subsets + translated source (CheckedEntry.Write IS Deliver.ceWrite; ioCore.Write, multiCore.Write/Sync, hooked.Write proved equal to the model)',
  'level_text': 'Containment is proved for failures at any set of positions of any field tree; delivery to every accepting core and complete error reporting are proved for the core-tree model and compared with real tees, wrappers and multi-syncers.',
  'level_note': 'The implicit Sync above Error level deliberately drops its error (upstream issue 370): only containment is checked for sync errors.',
 }
